@@ -141,3 +141,205 @@ Lemma tie_iter_next : TIE_iter_next =
   [(0, "if(it==NULL)return(mtbl_res_failure)");
    (0, "return(it->iter_next(it->clos,key,len_key,val,len_val))")].
 Proof. reflexivity. Qed.
+
+(* mtbl/block.c: num_restarts *)
+Lemma tie_blk_num_restarts : TIE_blk_num_restarts =
+  [(0, "assert(b->size>=2*sizeof(uint32_t))");
+   (0, "return(mtbl_fixed_decode32(b->data+b->size-sizeof(uint32_t)))")].
+Proof. reflexivity. Qed.
+
+(* mtbl/block.c: block_iter_init *)
+Lemma tie_blk_block_iter_init : TIE_blk_block_iter_init =
+  [(0, "assert(b->size>=2*sizeof(uint32_t))");
+   (0, "structblock_iter*bi=my_calloc(1,sizeof(*bi))");
+   (0, "bi->block=b");
+   (0, "bi->data=b->data");
+   (0, "bi->restarts=b->restart_offset");
+   (0, "bi->num_restarts=num_restarts(b)");
+   (0, "bi->current=bi->restarts");
+   (0, "bi->restart_index=bi->num_restarts");
+   (0, "assert(bi->num_restarts>0)");
+   (0, "bi->key=ubuf_init(64)");
+   (0, "return(bi)")].
+Proof. reflexivity. Qed.
+
+(* mtbl/block.c: next_entry_offset *)
+Lemma tie_blk_next_entry_offset : TIE_blk_next_entry_offset =
+  [(0, "return(bi->next-bi->data)")].
+Proof. reflexivity. Qed.
+
+(* mtbl/block.c: seek_to_restart_point *)
+Lemma tie_blk_seek_to_restart_point : TIE_blk_seek_to_restart_point =
+  [(0, "ubuf_reset(bi->key)");
+   (0, "bi->restart_index=idx");
+   (0, "uint64_toffset=get_restart_point(bi,idx)");
+   (0, "bi->next=bi->data+offset")].
+Proof. reflexivity. Qed.
+
+(* mtbl/block.c: block_iter_valid *)
+Lemma tie_blk_block_iter_valid : TIE_blk_block_iter_valid =
+  [(0, "return(bi->current<bi->restarts)")].
+Proof. reflexivity. Qed.
+
+(* mtbl/block.c: block_iter_seek_to_first *)
+Lemma tie_blk_block_iter_seek_to_first : TIE_blk_block_iter_seek_to_first =
+  [(0, "seek_to_restart_point(bi,0)");
+   (0, "parse_next_key(bi)")].
+Proof. reflexivity. Qed.
+
+(* mtbl/block.c: compare_restart_point *)
+Lemma tie_blk_compare_restart_point : TIE_blk_compare_restart_point =
+  [(0, "uint32_tshared,non_shared,value_length");
+   (0, "uint64_tregion_offset=get_restart_point(bi,i)");
+   (0, "constuint8_t*key_ptr=decode_entry(bi->data+region_offset,bi->data+bi->restarts,&shared,&non_shared,&value_length)");
+   (0, "assert(key_ptr!=NULL&&shared==0)");
+   (0, "returnbytes_compare(key_ptr,non_shared,target,target_len)")].
+Proof. reflexivity. Qed.
+
+(* mtbl/block.c: block_iter_next *)
+Lemma tie_blk_block_iter_next : TIE_blk_block_iter_next =
+  [(0, "if(!block_iter_valid(bi))return(false)");
+   (0, "parse_next_key(bi)");
+   (0, "return(block_iter_valid(bi))")].
+Proof. reflexivity. Qed.
+
+(* mtbl/block.c: block_iter_get *)
+Lemma tie_blk_block_iter_get : TIE_blk_block_iter_get =
+  [(0, "if(!block_iter_valid(bi))return(false)");
+   (0, "if(key)");
+   (1, "*key=ubuf_data(bi->key)");
+   (1, "*key_len=ubuf_size(bi->key)");
+   (0, "if(val)");
+   (1, "*val=bi->val");
+   (1, "*val_len=bi->val_len");
+   (0, "return(true)")].
+Proof. reflexivity. Qed.
+
+(* mtbl/block.c: block_destroy *)
+Lemma tie_blk_block_destroy : TIE_blk_block_destroy =
+  [(0, "if(*b!=NULL)");
+   (1, "if((*b)->needs_free)free((*b)->data)");
+   (1, "free(*b)");
+   (1, "*b=NULL")].
+Proof. reflexivity. Qed.
+
+(* mtbl/block.c: block_iter_destroy *)
+Lemma tie_blk_block_iter_destroy : TIE_blk_block_iter_destroy =
+  [(0, "if(*bi!=NULL)");
+   (1, "ubuf_destroy(&(*bi)->key)");
+   (1, "free(*bi)");
+   (1, "*bi=NULL")].
+Proof. reflexivity. Qed.
+
+(* mtbl/iter.c: mtbl_iter_init *)
+Lemma tie_iter_mtbl_iter_init : TIE_iter_mtbl_iter_init =
+  [(0, "assert(iter_seek!=NULL)");
+   (0, "assert(iter_next!=NULL)");
+   (0, "structmtbl_iter*it=my_calloc(1,sizeof(*it))");
+   (0, "it->iter_seek=iter_seek");
+   (0, "it->iter_next=iter_next");
+   (0, "it->iter_free=iter_free");
+   (0, "it->clos=clos");
+   (0, "return(it)")].
+Proof. reflexivity. Qed.
+
+(* mtbl/reader.c: mtbl_reader_options_init *)
+Lemma tie_rdr_mtbl_reader_options_init : TIE_rdr_mtbl_reader_options_init =
+  [(0, "return(my_calloc(1,sizeof(structmtbl_reader_options)))")].
+Proof. reflexivity. Qed.
+
+(* mtbl/reader.c: mtbl_reader_options_destroy *)
+Lemma tie_rdr_mtbl_reader_options_destroy : TIE_rdr_mtbl_reader_options_destroy =
+  [(0, "if(*opt)");
+   (1, "free(*opt)");
+   (1, "*opt=NULL")].
+Proof. reflexivity. Qed.
+
+(* mtbl/reader.c: mtbl_reader_options_set_madvise_random *)
+Lemma tie_rdr_mtbl_reader_options_set_madvise_random : TIE_rdr_mtbl_reader_options_set_madvise_random =
+  [(0, "opt->madvise_random=madvise_random")].
+Proof. reflexivity. Qed.
+
+(* mtbl/reader.c: mtbl_reader_options_set_verify_checksums *)
+Lemma tie_rdr_mtbl_reader_options_set_verify_checksums : TIE_rdr_mtbl_reader_options_set_verify_checksums =
+  [(0, "opt->verify_checksums=verify_checksums")].
+Proof. reflexivity. Qed.
+
+(* mtbl/reader.c: mtbl_reader_metadata *)
+Lemma tie_rdr_mtbl_reader_metadata : TIE_rdr_mtbl_reader_metadata =
+  [(0, "return&r->m")].
+Proof. reflexivity. Qed.
+
+(* mtbl/reader.c: mtbl_reader_source *)
+Lemma tie_rdr_mtbl_reader_source : TIE_rdr_mtbl_reader_source =
+  [(0, "assert(r!=NULL)");
+   (0, "return(r->source)")].
+Proof. reflexivity. Qed.
+
+(* mtbl/reader.c: get_block_at_index *)
+Lemma tie_rdr_get_block_at_index : TIE_rdr_get_block_at_index =
+  [(0, "constuint8_t*ikey,*ival");
+   (0, "size_tlen_ikey,len_ival");
+   (0, "if(block_iter_get(index_iter,&ikey,&len_ikey,&ival,&len_ival))");
+   (1, "structblock*b");
+   (1, "uint64_toffset");
+   (1, "mtbl_varint_decode64(ival,&offset)");
+   (1, "b=get_block(r,offset)");
+   (1, "*block_offset=offset");
+   (1, "return(b)");
+   (0, "return(NULL)")].
+Proof. reflexivity. Qed.
+
+(* mtbl/reader.c: reader_iter *)
+Lemma tie_rdr_reader_iter : TIE_rdr_reader_iter =
+  [(0, "structmtbl_reader*r=(structmtbl_reader*)clos");
+   (0, "structreader_iter*it=my_calloc(1,sizeof(*it))");
+   (0, "it->r=r");
+   (0, "it->index_iter=block_iter_init(r->index)");
+   (0, "block_iter_seek_to_first(it->index_iter)");
+   (0, "it->b=get_block_at_index(r,it->index_iter,&it->block_offset)");
+   (0, "if(it->b==NULL)");
+   (1, "block_iter_destroy(&it->index_iter)");
+   (1, "block_destroy(&it->b)");
+   (1, "free(it)");
+   (1, "return(NULL)");
+   (0, "it->bi=block_iter_init(it->b)");
+   (0, "block_iter_seek_to_first(it->bi)");
+   (0, "it->first=true");
+   (0, "it->valid=true");
+   (0, "it->it_type=READER_ITER_TYPE_ITER");
+   (0, "return(mtbl_iter_init(reader_iter_seek,reader_iter_next,reader_iter_free,it))")].
+Proof. reflexivity. Qed.
+
+(* mtbl/reader.c: reader_get *)
+Lemma tie_rdr_reader_get : TIE_rdr_reader_get =
+  [(0, "structmtbl_reader*r=(structmtbl_reader*)clos");
+   (0, "structreader_iter*it=reader_iter_init(r,key,len_key)");
+   (0, "if(it==NULL)return(NULL)");
+   (0, "it->k=ubuf_init(len_key)");
+   (0, "ubuf_append(it->k,key,len_key)");
+   (0, "it->it_type=READER_ITER_TYPE_GET");
+   (0, "return(mtbl_iter_init(reader_iter_seek,reader_iter_next,reader_iter_free,it))")].
+Proof. reflexivity. Qed.
+
+(* mtbl/reader.c: reader_get_prefix *)
+Lemma tie_rdr_reader_get_prefix : TIE_rdr_reader_get_prefix =
+  [(0, "structmtbl_reader*r=(structmtbl_reader*)clos");
+   (0, "structreader_iter*it=reader_iter_init(r,key,len_key)");
+   (0, "if(it==NULL)return(NULL)");
+   (0, "it->k=ubuf_init(len_key)");
+   (0, "ubuf_append(it->k,key,len_key)");
+   (0, "it->it_type=READER_ITER_TYPE_GET_PREFIX");
+   (0, "return(mtbl_iter_init(reader_iter_seek,reader_iter_next,reader_iter_free,it))")].
+Proof. reflexivity. Qed.
+
+(* mtbl/reader.c: reader_get_range *)
+Lemma tie_rdr_reader_get_range : TIE_rdr_reader_get_range =
+  [(0, "structmtbl_reader*r=(structmtbl_reader*)clos");
+   (0, "structreader_iter*it=reader_iter_init(r,key0,len_key0)");
+   (0, "if(it==NULL)return(NULL)");
+   (0, "it->k=ubuf_init(len_key1)");
+   (0, "ubuf_append(it->k,key1,len_key1)");
+   (0, "it->it_type=READER_ITER_TYPE_GET_RANGE");
+   (0, "return(mtbl_iter_init(reader_iter_seek,reader_iter_next,reader_iter_free,it))")].
+Proof. reflexivity. Qed.
